@@ -321,6 +321,49 @@ def spec_output(P, name, args, assumptions=None):
 
 
 
+class _Delivers(object):
+    """stand-in for a builder object: its documented result property hands out the named parameter"""
+    def __init__(self, prop, value, received):
+        self._prop, self._value, self.received = prop, value, received
+
+    def __getattr__(self, name):
+        if name == "get_" + self.__dict__["_prop"]:
+            return lambda J: self.__dict__["_value"]
+        raise AttributeError(name)
+
+
+def install_collaborator_standins(I, P):
+    """The tabulation factories are analysed with their collaborators replaced at the constructor: the two registries by
+    opaque objects, the pair / EAM builders by objects whose .potentials / .eam_potentials are the symbolic model, the
+    reference data by an opaque object.  (What those classes do is the subject of C03.B, C04.B, C09.O7, C20.)"""
+    cfgpkg = "atsim.potentials.config."
+    st = I.__dict__.setdefault("class_standins", {})
+    rec = I.__dict__.setdefault("standin_calls", [])
+
+    def opaque(tag):
+        def h(J, ci, args, kwargs):
+            rec.append((ci.name, args, kwargs))
+            return Opaque(("collaborator", tag))
+        return h
+
+    def delivers(prop, value):
+        def h(J, ci, args, kwargs):
+            rec.append((ci.name, args, kwargs))
+            from .symeval_ops import PyObjV
+            return PyObjV(_Delivers(prop, value, (args, kwargs)))
+        return h
+    for modname, clsname, h in (
+            ("_potential_form_registry", "Potential_Form_Registry", opaque("potential_form_registry")),
+            ("_modifier_registry", "Modifier_Registry", opaque("modifier_registry")),
+            ("_pair_potential_builder", "Pair_Potential_Builder", delivers("potentials", param("potentials"))),
+            ("_eam_potential_builder", "EAM_Potential_Builder", delivers("eam_potentials", param("eam_potentials"))),
+            ("_eam_potential_builder", "EAM_Potential_Builder_FS", delivers("eam_potentials", param("eam_potentials")))):
+        ci = P.cls(cfgpkg + modname, clsname)
+        st[ci.fq] = h
+    rd = P.cls("atsim.potentials.referencedata._reference_data", "Reference_Data")
+    st[rd.fq] = opaque("reference_data")
+
+
 def factory_route(chk, P, rule, target, clsname, min_nr=None, eam=False, label=None):
     """TABULATION_FACTORIES[target].create_tabulation(cp) -> instance of clsname with the parser's grid"""
     I = make_interp(P)
@@ -341,17 +384,7 @@ def factory_route(chk, P, rule, target, clsname, min_nr=None, eam=False, label=N
     chk.ob(rule, "factory for %r instantiates %s" % (label, clsname), ok, site=site, found=tc, expect=clsname,
            key="%s|%s|class" % (rule, label))
     # run create_tabulation with an opaque parser; builders replaced by opaque results
-    I.hooks["atsim.potentials.config._potential_form_registry:Potential_Form_Registry.__init__"] = lambda i, fv, a, k, n: NONE
-    I.hooks["atsim.potentials.config._modifier_registry:Modifier_Registry.__init__"] = lambda i, fv, a, k, n: NONE
-    I.hooks["atsim.potentials.config._tabulation_factories:_create_pair_objects"] = lambda i, fv, a, k, n: param("potentials")
-    I.hooks["atsim.potentials.config._tabulation_factories:PairTabulationFactory._log_tabulation_details"] = lambda i, fv, a, k, n: NONE
-    if eam:
-        def eam_builder_init(i, fv, a, k, n):
-            fv.selfv.attrs["_potlist"] = param("eam_potentials")
-            return NONE
-        I.hooks["atsim.potentials.config._eam_potential_builder:EAM_Potential_Builder.__init__"] = eam_builder_init
-        I.hooks["atsim.potentials.config._tabulation_factories:EAMTabulationFactory._create_reference_data"] = \
-            lambda i, fv, a, k, n: param("reference_data")
+    install_collaborator_standins(I, P)
     def log_only(cond):
         if isinstance(cond, Cond) and cond.kind == "isinstance":
             return False
@@ -418,17 +451,20 @@ def eam_api_vs_spec(chk, rule, P, modname, funcname, specname, opts=None):
 
 
 def resolve_target(P, given):
-    """the factory key that _TabulationSection._init_target produces for a target spelling"""
-    I = make_interp(P)
-    I.hooks["atsim.potentials.config._config_parser:_get_or_none"] = lambda i, fv, a, k, n: Const(given)
-    ci = P.cls("atsim.potentials.config._config_parser", "_TabulationSection")
-    inst = InstV(ci)
-    cp = DictV()
-    cp.items[Const("Tabulation").key()] = (Const("Tabulation"), param("section"))
-    run_method(I, inst, "_init_target", [cp])
-    got = inst.attrs.get("_target")
+    """the factory key that the configuration layer produces for a target spelling: a file with only
+    '[Tabulation] target : <given>' is parsed on the configparser model and ConfigParser.tabulation.target is read"""
+    from .props.c14 import parse
+    from .symeval import RaiseSignal
+    out = parse(P, "[Tabulation]\ntarget : %s\n" % given)
+    if out[0] != "ok":
+        raise AnalysisError("a file with target %r does not parse: %r" % (given, out[1]))
+    I, cp = out[3], out[4]
+    try:
+        got = I.getattr(I.getattr(cp, "tabulation"), "target")
+    except RaiseSignal as e:
+        raise AnalysisError("target spelling %r is refused: %r" % (given, e.exc))
     if not (isinstance(got, Const) and isinstance(got.v, str)):
-        raise AnalysisError("_init_target did not produce a constant target for %r: %r" % (given, got))
+        raise AnalysisError("the [Tabulation] section did not produce a constant target for %r: %r" % (given, got))
     return got.v
 
 
